@@ -20,9 +20,15 @@
 (*   (blank)                                                               *)
 (*   R              "[r](2)"                   a block reference           *)
 (*   (blank)                                                               *)
-(*   I              "- item [i](2)"            a list item with a link     *)
+(*   I              "- it [i](2)"              a list item with a link ... *)
+(*   J              "  more [j](2)"            ... and a second line       *)
 (*   (blank)                                                               *)
 (*   Q              "> [q](2)"                 a quote holding one reference *)
+(*   (blank)                                                               *)
+(*   TB             "| h | k |" "|---|---|" "| c | [c](2) |"   a table     *)
+(*   (blank)                                                               *)
+(*   Z, Y           "tail [z](2)" "end [y](2)"  the last paragraph, with   *)
+(*                  or without a final newline                             *)
 (***************************************************************************)
 EXTENDS Naturals, Sequences, FiniteSets, TLC
 
@@ -45,8 +51,14 @@ LinkLine(P) == LinkLineW(P, "none")
 RefLine(P) == RefLineW(P, "none")
 ItemLine(P) == ItemLineW(P, "none")
 LastLine(P) == ItemLine(P)
-\* ... and after the item, a block quote that holds a single block reference: "> [q](2)"
-QuoteLineW(P, wrap) == ItemLineW(P, wrap) + 2
+\* the item has a second line (the same tight paragraph); after it a block quote that holds a single
+\* block reference, a table with a link in a cell, and a last paragraph of two lines
+JLineW(P, wrap) == ItemLineW(P, wrap) + 1
+QuoteLineW(P, wrap) == JLineW(P, wrap) + 2
+TableLineW(P, wrap) == QuoteLineW(P, wrap) + 2
+CellLineW(P, wrap) == TableLineW(P, wrap) + 2
+ZLineW(P, wrap) == CellLineW(P, wrap) + 2
+YLineW(P, wrap) == ZLineW(P, wrap) + 1
 
 \* the link is "[" ltext "](2)"; ltext is a sequence of character classes
 LinkLenT(lt) == SumUnits(lt) + 5
